@@ -34,7 +34,8 @@ Fixpoint run_rules (sp : special) (rules : list rule) (attrs : list tattr) (p : 
                  end
              end)
   | RuleSkipIf a :: r =>
-      if mem_attr a attrs then TRole (if tattr_eqb a ACombiner then RCombiner else RIgnored) else run_rules sp r attrs p
+      if mem_attr a attrs then TRole (if tattr_eqb a ACombiner && sp_combiner_joins sp then RCombiner else RIgnored)
+      else run_rules sp r attrs p
   | RuleRaiseIf a :: r => if mem_attr a attrs then TReject else run_rules sp r attrs p
   | RuleRaiseUnless a :: r => if mem_attr a attrs then run_rules sp r attrs p else TReject
   | RulePauliOrRaise :: r =>
@@ -65,7 +66,7 @@ Definition classify_special (sp : special) (kinds : list tkind) : verdict :=
    filled positionally, and every remaining parameter has a default or is given by keyword *)
 Definition call_ok (f : gfun) (npos : nat) (kws : list string) : bool :=
   let ps := gf_params f in
-  (npos <=? length ps) &&
+  Nat.leb npos (length ps) &&
   forallb (fun kw => mem_str kw (map fst (skipn npos ps))) kws &&
   forallb (fun p => snd p || mem_str (fst p) kws) (skipn npos ps).
 
